@@ -26,7 +26,7 @@ def x_obligations(tier):
     # went through Sid(): spil's caches on, histories from C13's call alphabet (calls 1-3 first, every call second)
     for i in (1, 2, 3):
         o.append(Obl(f"C02-history[after call#{i}]", "xhair.obl.c13", "pair", env={"VF_IDX": str(i), "VF_FIRST": "local"}, timeout=170 if tier == "quick" else 600, family="C02-history",
-                     bound=f"history (call #{i}: a uri / Sid object with a forced type, call j) for every j of the 29-call alphabet of C13, caches on"))
+                     bound=f"history (call #{i}: a uri / Sid object with a forced type, call j) for every j of the call alphabet of C13, caches on"))
     o.append(Obl("C02-reach", M, "reach_forms", env={"VF_N": "6"}, timeout=150, expect="refute", family="C02-twin"))
     return o
 
